@@ -39,6 +39,7 @@ type replayOutcome struct {
 	Observed       map[string]string `json:"observed"`
 	Covers         []string          `json:"covers"`
 	AssumeViolated []string          `json:"assume_violated"`
+	Race           string            `json:"race,omitempty"` // first data race reported by the Go race detector (race replays only)
 }
 
 func loadJSON(path string, v interface{}) error {
@@ -65,11 +66,19 @@ type replayer struct {
 	stubs   map[string]map[string]bool
 }
 
-func (r *replayer) binFor(pkgDir string) (string, error) {
+func (r *replayer) binFor(pkgDir string) (string, error) { return r.binForMode(pkgDir, false) }
+
+// binForMode: race = build the replay binary with the Go race detector (used to confirm lock-discipline violations).
+func (r *replayer) binForMode(pkgDirReal string, race bool) (string, error) {
 	r.mu.Lock()
 	defer r.mu.Unlock()
-	if b, ok := r.bins[pkgDir]; ok {
-		return b, r.binErr[pkgDir]
+	pkgDir := pkgDirReal
+	binKey := pkgDir
+	if race {
+		binKey += "#race"
+	}
+	if b, ok := r.bins[binKey]; ok {
+		return b, r.binErr[binKey]
 	}
 	// generate test file
 	pkgName := ""
@@ -95,8 +104,8 @@ func (r *replayer) binFor(pkgDir string) (string, error) {
 	repl[filepath.Join(r.e.repoDir, pkgDir, "zz_verif_replay_test.go")] = testFile
 	// stub rewriting
 	if err := r.e.rewriteStubs(r.tmp, repl); err != nil {
-		r.bins[pkgDir] = ""
-		r.binErr[pkgDir] = err
+		r.bins[binKey] = ""
+		r.binErr[binKey] = err
 		return "", err
 	}
 	ob, _ := json.Marshal(map[string]interface{}{"Replace": repl})
@@ -104,19 +113,27 @@ func (r *replayer) binFor(pkgDir string) (string, error) {
 	os.WriteFile(ovFile, ob, 0644)
 	bin := filepath.Join(r.tmp, safe+".test")
 	cmd := exec.Command("go", "test", "-c", "-vet=off", "-overlay", ovFile, "-o", bin, "./"+pkgDir)
+	if race {
+		bin = filepath.Join(r.tmp, safe+".race.test")
+		cmd = exec.Command("go", "test", "-c", "-race", "-vet=off", "-overlay", ovFile, "-o", bin, "./"+pkgDir)
+	}
 	cmd.Dir = r.e.repoDir
 	cmd.Env = append(os.Environ(), "GOFLAGS=-mod=mod", "GOPROXY=off", "GOSUMDB=off", "GOTOOLCHAIN=local")
 	out, err := cmd.CombinedOutput()
 	if err != nil {
 		err = fmt.Errorf("native replay build failed for %s: %v\n%s", pkgDir, err, trunc(string(out), 3000))
 	}
-	r.bins[pkgDir] = bin
-	r.binErr[pkgDir] = err
+	r.bins[binKey] = bin
+	r.binErr[binKey] = err
 	return bin, err
 }
 
 func (r *replayer) run(pkgDir, harness string, values map[string]string, tag string) (*replayOutcome, string, error) {
-	bin, err := r.binFor(pkgDir)
+	return r.runMode(pkgDir, harness, values, tag, false)
+}
+
+func (r *replayer) runMode(pkgDir, harness string, values map[string]string, tag string, race bool) (*replayOutcome, string, error) {
+	bin, err := r.binForMode(pkgDir, race)
 	if err != nil {
 		return nil, "", err
 	}
@@ -131,12 +148,35 @@ func (r *replayer) run(pkgDir, harness string, values map[string]string, tag str
 	cmd := exec.Command(bin, "-test.run", "^TestVerifReplay$", "-test.count=1", "-test.timeout=120s")
 	cmd.Dir = filepath.Join(r.e.repoDir, pkgDir)
 	cmd.Env = append(os.Environ(), "VERIF_REPLAY="+in, "VERIF_REPLAY_OUT="+outp, "VERIF_HARNESS="+harness, "VERIF_TIER="+r.e.tier, "VERIF_REPO="+r.e.repoDir)
+	if race {
+		cmd.Env = append(cmd.Env, "VERIF_RACE=1", "GORACE=halt_on_error=0")
+	}
 	co, err := cmd.CombinedOutput()
 	var oc replayOutcome
 	if e2 := loadJSON(outp, &oc); e2 != nil {
 		return nil, in, fmt.Errorf("native replay produced no outcome (%v): %s", err, trunc(string(co), 1500))
 	}
+	if race && strings.Contains(string(co), "WARNING: DATA RACE") {
+		oc.Race = raceSummary(string(co))
+	}
 	return &oc, in, nil
+}
+
+// raceSummary keeps the first report's access lines.
+func raceSummary(out string) string {
+	i := strings.Index(out, "WARNING: DATA RACE")
+	lines := strings.Split(out[i:], "\n")
+	var keep []string
+	for _, l := range lines {
+		t := strings.TrimSpace(l)
+		if strings.HasPrefix(t, "WARNING") || strings.HasPrefix(t, "Read at") || strings.HasPrefix(t, "Write at") || strings.HasPrefix(t, "Previous") || strings.Contains(t, repoMod) {
+			keep = append(keep, t)
+		}
+		if len(keep) >= 8 || strings.HasPrefix(t, "=====") && len(keep) > 1 {
+			break
+		}
+	}
+	return strings.Join(keep, " | ")
 }
 
 // runReplay re-runs a recorded counterexample against the native build of the current tree.
@@ -153,7 +193,11 @@ func runReplay(e *Engine, prop, path string) int {
 		return 3
 	}
 	tmp, _ := os.MkdirTemp("", "verif-replay-")
-	defer os.RemoveAll(tmp)
+	if os.Getenv("VERIF_KEEP") == "" {
+		defer os.RemoveAll(tmp)
+	} else {
+		fmt.Println("keeping scratch dir", tmp)
+	}
 	rp := &replayer{e: e, tmp: tmp, bins: map[string]string{}, binErr: map[string]error{}, harness: map[string][]string{}}
 	pkgDir := ""
 	for _, fn := range e.findHarnesses(prop + "_") {
@@ -167,13 +211,13 @@ func runReplay(e *Engine, prop, path string) int {
 		fmt.Printf("INCONCLUSIVE property=%s harness %s not found\n", prop, rec.Harness)
 		return 3
 	}
-	oc, _, err := rp.run(pkgDir, rec.Harness, rec.Values, "replay")
+	oc, _, err := rp.runMode(pkgDir, rec.Harness, rec.Values, "replay", rec.Kind == "unguarded")
 	if err != nil {
 		fmt.Printf("INCONCLUSIVE property=%s %v\n", prop, err)
 		return 3
 	}
-	fmt.Printf("replay harness=%s failed=%v panic=%q assume_violated=%v covers=%v\n", rec.Harness, oc.Failed, oc.Panic, oc.AssumeViolated, oc.Covers)
-	if len(oc.AssumeViolated) == 0 && (len(oc.Failed) > 0 || oc.Panic != "") {
+	fmt.Printf("replay harness=%s failed=%v panic=%q race=%q assume_violated=%v covers=%v\n", rec.Harness, oc.Failed, oc.Panic, oc.Race, oc.AssumeViolated, oc.Covers)
+	if len(oc.AssumeViolated) == 0 && (len(oc.Failed) > 0 || oc.Panic != "" || oc.Race != "") {
 		fmt.Printf("VIOLATION property=%s replay=%s\n", prop, path)
 		return 1
 	}
@@ -276,7 +320,7 @@ func runCheck(e *Engine, prop string, cfg PropConfig, known []KnownFinding, seed
 		// counterexamples: replay before reporting
 		for vi, v := range h.violations {
 			desc := fmt.Sprintf("%s %s %s", h.Name, v.Label, v.Site)
-			oc, inFile, err := rp.run(pkgDir, h.Name, v.Values, fmt.Sprintf("cex%d", vi))
+			oc, inFile, err := rp.runMode(pkgDir, h.Name, v.Values, fmt.Sprintf("cex%d", vi), v.Kind == "unguarded")
 			reproduced := false
 			if err != nil {
 				inconclusive = append(inconclusive, fmt.Sprintf("%s: replay of %s failed to run: %v", h.Name, v.Label, err))
@@ -290,6 +334,10 @@ func runCheck(e *Engine, prop string, cfg PropConfig, known []KnownFinding, seed
 					}
 				case "panic":
 					reproduced = oc.Panic != ""
+				case "unguarded":
+					// confirmed by the Go race detector: the native harness keeps touching the guarded state under
+					// the lock from a second goroutine
+					reproduced = oc.Race != ""
 				}
 				if !reproduced {
 					inconclusive = append(inconclusive, fmt.Sprintf("%s: counterexample for %s (%s) did NOT reproduce natively (failed=%v panic=%q assumeViolated=%v notes=%v) — engine/model defect, not reported as violation", h.Name, v.Label, v.Site, oc.Failed, oc.Panic, oc.AssumeViolated, v.Notes))
@@ -322,7 +370,9 @@ func runCheck(e *Engine, prop string, cfg PropConfig, known []KnownFinding, seed
 		}
 		// translator validation: passing models replayed natively
 		for mi, pm := range h.passModels {
-			oc, _, err := rp.run(pkgDir, h.Name, pm.Values, fmt.Sprintf("pass%d", mi))
+			// harnesses that declare guarded state are validated under the race detector: a path the engine found
+			// to respect the lock discipline must not race natively either
+			oc, _, err := rp.runMode(pkgDir, h.Name, pm.Values, fmt.Sprintf("pass%d", mi), h.usesGuard)
 			if err != nil {
 				inconclusive = append(inconclusive, fmt.Sprintf("%s: replay of passing model failed to run: %v", h.Name, err))
 				continue
@@ -333,6 +383,9 @@ func runCheck(e *Engine, prop string, cfg PropConfig, known []KnownFinding, seed
 			engineFailed := map[string]bool{}
 			for _, v := range h.violations {
 				engineFailed[v.Label] = true
+				if v.Kind == "unguarded" {
+					engineFailed["unguarded"] = true
+				}
 			}
 			for _, f := range oc.Failed {
 				if !engineFailed[f] {
@@ -347,6 +400,10 @@ func runCheck(e *Engine, prop string, cfg PropConfig, known []KnownFinding, seed
 			if len(oc.AssumeViolated) > 0 {
 				ok = false
 				why = append(why, "native run violated an assumption")
+			}
+			if oc.Race != "" && !engineFailed["unguarded"] {
+				ok = false
+				why = append(why, "native data race on a path the engine found disciplined: "+oc.Race)
 			}
 			for k, want := range pm.Observed {
 				if got, present := oc.Observed[k]; !present || got != want {
@@ -400,7 +457,7 @@ func runCheck(e *Engine, prop string, cfg PropConfig, known []KnownFinding, seed
 		"A3 workload controllers behave as documented for the knobs set",
 		"A4 solver soundness (" + e.solverKind + ")",
 		"Go ints encoded in SMT Int with explicit two's-complement wrap; intstr percent scaling summarised as exact integer ceil/floor under |v*t|<2^53 (DESIGN.md appendix A)",
-		"klog/record/fmt-to-stdout are no-ops; sync mutexes are no-ops (single-threaded execution)",
+		"klog/record/fmt-to-stdout are no-ops; execution is single-threaded: sync mutexes only keep a per-path hold count, against which accesses to state declared guarded (verifrt.GuardedBy) are checked",
 	}, cfg.Assumes...)
 	ev := map[string]interface{}{
 		"property_id": prop,
